@@ -162,7 +162,8 @@ CHECKS = {
              "an alphabet, so all short programs and all interleavings with timer expiries / ON key are explored) is model-checked "
              "exhaustively to depth 7-9, without and with acknowledge-at-return (RETI clears the status bit of the source the handler was "
              "entered for - the Rust core's reading), for DeliverOnlyIfEnabled, FrameOnEntry, EnteredForEnabledPending, NoReentryWhileMasked, "
-             "PromptWhenEnabled, StatusNotLost, StillOwed, HaltIdle, OffStopsTimers. Its behaviours (exhaustive depth 5, `-simulate` depth 40) and seeded random scripts are executed step by "
+             "PromptWhenEnabled, StatusNotLost, StillOwed, HaltIdle, OffStopsTimers; the thorough tier also explores the complete reachable state "
+             "space (program positions modulo 2, no depth bound, 7.8 M states per variant), i.e. runs of every length. Its behaviours (exhaustive depth 5, `-simulate` depth 40) and seeded random scripts are executed step by "
              "step on the real Rust CoreRuntime and the real Python PCE500Emulator (instruction bytes poked at the PC, timer expiries - also both at once -, ON key and matrix keys "
              "with strobe / KIL-read instructions injected at instruction boundaries); TraceMachine.tla evaluates the clauses of C12 on every "
              "recorded step (pushed frame contents, delivery counter and reported source, registers, power state, timer targets) with monitors "
